@@ -198,6 +198,7 @@ fn mk(k: &str, v: &str, x: &str, t: &str, sh: &str) -> Term {
 }
 
 const NS: &str = "http://e/";
+const OLDNS: &str = "http://old.example/";
 
 /// The i-th term of a shape class.  Canonical stored forms of distinct (shape, i) are distinct.
 fn shape_term(sh: &str, i: u64) -> Term {
@@ -253,8 +254,12 @@ fn size_doc(rng: &mut Rng, fmt: &str, nlines: u64, g: &Value, prior: &[[String; 
     let gshapes = strs(g, "gshapes");
     let needs_pfx = fmt == "xml" || (usepn && (fmt == "ttl" || fmt == "n3"));
     let mut budget = nlines;
-    if needs_pfx && budget >= 2 { d.prefix("e", NS); budget -= 1; }
-    else if needs_pfx { d.prefix("e", NS); } // a 1-line document with a prefix has 2 lines; recorded as such
+    // "ns": namespace this document binds prefix e: to (a history load may bind it differently from
+    // the document under test); "redecl": the document first binds e: elsewhere and re-declares it
+    let ns = g.get("ns").and_then(|x| x.as_str()).unwrap_or(NS).to_string();
+    if needs_pfx && fmt != "xml" && budget >= 3 && g.get("redecl").and_then(|x| x.as_bool()).unwrap_or(false) { d.prefix("e", OLDNS); budget -= 1; }
+    if needs_pfx && budget >= 2 { d.prefix("e", &ns); budget -= 1; }
+    else if needs_pfx { d.prefix("e", &ns); } // a 1-line document with a prefix has 2 lines; recorded as such
     let side = ((nlines as f64 * 1.5).sqrt().ceil() as u64) + 6;
     let np = 4u64;
     let universe = side * np * side;
@@ -337,6 +342,8 @@ fn expand(case: &Value) -> Expanded {
             let f0 = &p[5..];
             let mut g0 = g.clone();
             g0["pfx"] = json!(f0 == "ttl" || f0 == "n3" || f0 == "xml");
+            if g.get("altns").and_then(|x| x.as_bool()).unwrap_or(false) { g0["ns"] = json!(OLDNS); }
+            g0["redecl"] = json!(false);
             g0["oshapes"] = json!(["iri"]); g0["sshapes"] = json!(["iri"]); g0["gshapes"] = json!([]);
             (vec![], 0, vec![size_doc(&mut rng, f0, g["n0"].as_u64().unwrap_or(40), &g0, &[])])
         }
@@ -410,14 +417,14 @@ fn gen_cases(seed: u64, n: u64, maxlines: u64) -> Vec<Value> {
         let nlines = match rng.below(6) {
             0 => rng.range(1, 8),
             1 => rng.range(990, 1010).min(maxlines),
-            2 => rng.range(1990, 2010).min(maxlines),
+            2 => (rng.range(1, 4) * 1000 + rng.range(0, 12)).min(maxlines),
             3 => rng.range(1, 300),
             _ => rng.range(1, maxlines),
         };
         let prior = match rng.below(6) { 0 | 1 => "empty".to_string(), 2 | 3 => "small".to_string(), 4 => "large".to_string(), _ => format!("load:{}", rng.pick(&fmts)) };
-        let threads = *rng.pick(&[1u64, 2, 16]);
+        let threads = *rng.pick(&[1u64, 2, 2, 3, 4, 16]);
         v.push(json!({"threads":threads,"gen":{"kind":"size","fmt":fmt,"nlines":nlines,"prior":prior,"seed":rng.next() >> 12,
-            "pfx": rng.chance(1, 2), "n0": rng.range(3, 60),
+            "pfx": rng.chance(1, 2), "altns": rng.chance(1, 2), "redecl": rng.chance(1, 3), "n0": rng.range(3, 60),
             "oshapes": core_oshapes(fmt), "sshapes": ["iri"], "gshapes": if fmt == "nq" { json!(["iri"]) } else { json!([]) }}}));
     }
     v
